@@ -46,6 +46,9 @@ pub struct NetRun {
     /// harness-side wait ran out (inconclusive, never a violation by itself)
     pub timed_out: bool,
     pub trailing_bytes: usize,
+    /// after the harness closed its end: did the server let go of the accepted socket within 10 s?
+    /// (None: not observable)
+    pub server_let_go: Option<bool>,
 }
 
 pub fn start_server(opts: ServerOpts) -> Result<Server, String> {
@@ -55,6 +58,11 @@ pub fn start_server(opts: ServerOpts) -> Result<Server, String> {
 
 /// Send `chunks` over one fresh connection to `server`.
 pub fn run_connection(server: &Server, chunks: &[Vec<u8>], finish: Finish, wait: Duration) -> Result<NetRun, String> {
+    run_connection_paced(server, chunks, finish, wait, None)
+}
+
+/// as run_connection; `pause` = (index of the chunk after which the client goes silent, for how long)
+pub fn run_connection_paced(server: &Server, chunks: &[Vec<u8>], finish: Finish, wait: Duration, pause: Option<(usize, Duration)>) -> Result<NetRun, String> {
     let mut c = Client::connect(server.port).map_err(|e| format!("connect: {}", e))?;
     let mut run = NetRun::default();
     if !c.resolve_server_fd(Duration::from_secs(5)) {
@@ -70,6 +78,11 @@ pub fn run_connection(server: &Server, chunks: &[Vec<u8>], finish: Finish, wait:
             Drain::Timeout => {
                 run.timed_out = true;
                 break;
+            }
+        }
+        if let Some((at, d)) = pause {
+            if at == i && i + 1 < chunks.len() {
+                std::thread::sleep(d);
             }
         }
     }
@@ -107,7 +120,23 @@ pub fn run_connection(server: &Server, chunks: &[Vec<u8>], finish: Finish, wait:
     run.reset = c.reset;
     run.malformed = c.malformed.clone();
     run.trailing_bytes = c.unparsed();
+    let sfd = c.server_fd;
+    let ident = sfd.and_then(crate::l3::socket_identity);
     c.reset_close();
+    if let (Some(fd), Some(ident)) = (sfd, ident) {
+        // the accepted socket lives in this process: once the server ends the connection the descriptor
+        // is closed (or reused for another peer)
+        let t0 = std::time::Instant::now();
+        let mut gone = false;
+        while t0.elapsed() < Duration::from_secs(10) {
+            if crate::l3::socket_identity(fd).as_ref() != Some(&ident) {
+                gone = true;
+                break;
+            }
+            std::thread::sleep(Duration::from_micros(200));
+        }
+        run.server_let_go = Some(gone);
+    }
     Ok(run)
 }
 
